@@ -1095,6 +1095,129 @@ def _deref_promote(w):
     return True
 
 
+def _alias_promote(w):
+    """a compiler temporary that only ever holds a reference taken *out of a place* of an inlined callee's argument list
+    (`helper(this.attempt)` with `this.attempt: &mut u32`, `helper(&mut *self.count)`) and is only used through `*`:
+    its dereferences are accesses of `*place`, provided nothing on the way can change what `place` holds (its base local
+    is defined once and no prefix of the place is assigned).  After the helper is inlined, `*a += 1` then reads
+    `*this.attempt += 1`, which is what every rule looks for."""
+    body = w.body
+    types = body.types
+    defs, writes = {}, []
+    for blk in w.blocks:
+        if blk.get("dead"):
+            continue
+        for s_ in blk["stmts"]:
+            if s_["k"] == "assign":
+                if not s_["lhs"]["p"]:
+                    defs.setdefault(s_["lhs"]["l"], []).append(s_)
+                else:
+                    writes.append(s_["lhs"])
+        t = blk["term"]
+        if t["k"] == "call":
+            if not t["dest"]["p"]:
+                defs.setdefault(t["dest"]["l"], []).append(None)
+            else:
+                writes.append(t["dest"])
+
+    def stable(l, path):
+        if any(not isinstance(e, (dict, str)) or (isinstance(e, dict) and "index" in e) for e in path):
+            return False
+        if l > body.arg_count and len(defs.get(l, [])) != 1:
+            return False
+        if l <= body.arg_count and defs.get(l):
+            return False
+        for wpl in writes:
+            if wpl["l"] == l and len(wpl["p"]) <= len(path) and wpl["p"] == path[:len(wpl["p"])]:
+                return False
+        return True
+    root, via = {}, {}
+    grew = True
+    while grew:
+        grew = False
+        for r, ds in defs.items():
+            if r in root or len(ds) != 1 or ds[0] is None or r <= body.arg_count:
+                continue
+            if types[w.locals[r]["ty"]].get("k") != "ref":
+                continue
+            rv = ds[0]["rv"]
+            if rv["k"] == "use":
+                pl = rv["op"].get("move") or rv["op"].get("copy")
+                if pl is None or pl["l"] == r:
+                    continue
+                if pl["p"] and pl["l"] not in root and stable(pl["l"], pl["p"]):
+                    root[r] = (pl["l"], list(pl["p"]) + ["*"])
+                    grew = True
+                elif not pl["p"] and pl["l"] in root:
+                    root[r] = root[pl["l"]]          # the reference handed on whole (argument of the inlined helper)
+                    via[r] = pl["l"]
+                    grew = True
+            elif rv["k"] == "ref" and len(rv["place"]["p"]) >= 2 and rv["place"]["p"][-1] == "*" and rv["place"]["l"] != r \
+                    and rv["place"]["l"] not in root and stable(rv["place"]["l"], rv["place"]["p"][:-1]):
+                root[r] = (rv["place"]["l"], list(rv["place"]["p"]))
+                grew = True
+    # the source place must not itself be rooted in a promoted local
+    root = {r: v for r, v in root.items() if v[0] not in root}
+    via = {r: s_ for r, s_ in via.items() if r in root and s_ in root}
+    if not root:
+        return False
+    bad = set()
+    for blk in w.blocks:
+        if blk.get("dead"):
+            continue
+        for s_ in blk["stmts"]:
+            if s_["k"] in ("live", "dead"):
+                continue
+            if s_["k"] == "assign" and not s_["lhs"]["p"] and s_["lhs"]["l"] in root:
+                continue
+            pls = []
+            _places(s_, pls)
+            for pl in pls:
+                if pl["l"] in root and not (pl["p"] and pl["p"][0] == "*"):
+                    bad.add(pl["l"])
+        pls = []
+        _places(blk["term"], pls)
+        for pl in pls:
+            if pl["l"] in root and not (pl["p"] and pl["p"][0] == "*"):
+                bad.add(pl["l"])
+    # a reference that stays keeps the one it was copied from, and a promoted one must not feed a kept one
+    grew = True
+    while grew:
+        grew = False
+        for r, src in via.items():
+            if (r in bad) != (src in bad):
+                bad |= {r, src}
+                grew = True
+    good = {r for r in root if r not in bad and (r not in via or via[r] in root)}
+    if not good:
+        return False
+    import copy as _copy
+    for blk in w.blocks:
+        if blk.get("dead"):
+            continue
+        new_stmts = []
+        for s_ in blk["stmts"]:
+            if s_["k"] in ("live", "dead") and s_.get("l") in good:
+                continue
+            if s_["k"] == "assign" and not s_["lhs"]["p"] and s_["lhs"]["l"] in good:
+                continue
+            pls = []
+            _places(s_, pls)
+            for pl in pls:
+                if pl["l"] in good:
+                    rl, rp = root[pl["l"]]
+                    pl["l"], pl["p"] = rl, _copy.deepcopy(rp) + pl["p"][1:]
+            new_stmts.append(s_)
+        blk["stmts"] = new_stmts
+        pls = []
+        _places(blk["term"], pls)
+        for pl in pls:
+            if pl["l"] in good:
+                rl, rp = root[pl["l"]]
+                pl["l"], pl["p"] = rl, _copy.deepcopy(rp) + pl["p"][1:]
+    return True
+
+
 def _neutralise_dead(w):
     n = len(w.blocks)
     seen = set([0])
@@ -1294,6 +1417,7 @@ def _inline_body(facts, body, policy="full"):
     _neutralise_dead(w)
     if _sroa(facts, w):
         _deref_promote(w)
+    _alias_promote(w)
     return _mk_body(body, w)
 
 
